@@ -111,7 +111,7 @@ def run(chk):
     nstates = chk.scale(5, 16)
     for i in range(chk.scale(160, 3000)):
         how = rng.choice(["superchip", "superchip", "3E", "3EP"])
-        p = gen_c.program(rng, placement="zp", shorts=rng.random() < 0.3, inline_rate=0.0, gotos=False, probe=())
+        p = gen_c.program(rng, placement="zp", shorts=rng.random() < 0.3, inline_rate=0.0, gotos=False, probe=(), memsub=False)
         # known finding (DESIGN.md section 7, row 15): in-place 16-bit shifts on split-port memory
         p = mark_split(p, rng, how)
         if re.search(r"\bs\d+ (<<|>>)=", p.text):
